@@ -273,6 +273,15 @@ def fullSpace (arity : Nat) (tmapIds smapIds : List Int) (sampleId : Int) : Exce
     let rows := combos arity tmapIds
     .ok { arity := arity, sids := List.replicate rows.length sampleId, tids := rows }
 
+/-- the refusal logic of `generate_full_combinatoric_space` alone (same guards, in the same order, as
+    `fullSpace`; `Props/C20.lean` proves the two agree) -- lets the driver answer for mappings whose
+    space is within the budget but far too large to enumerate in a test -/
+def fullSpaceGuard (arity nMap : Nat) (smapIds : List Int) (sampleId : Int) : Except Err Unit := do
+  let cnt ← combinationCount nMap arity
+  if cnt > 10000000 then .error .valueError
+  else if !(smapIds.contains sampleId) then .error .keyError
+  else .ok ()
+
 class Sqrt (α : Type) where
   sqrt : α → α
 
@@ -382,6 +391,10 @@ def handle (toks : List String) : Option String :=
   | ["c20.space", a, tm, sm, sid] => do
     let r := fullSpace (← parseNat? a) (← parseIntList? tm) (← parseIntList? sm) (← parseInt? sid)
     pure (showE (fun sc => s!"{showIntList sc.sids} {showIntListList sc.tids}") r)
+  | ["c20.spaceok", a, n, sm, sid] => do
+    match fullSpaceGuard (← parseNat? a) (← parseNat? n) (← parseIntList? sm) (← parseInt? sid) with
+    | .ok _ => pure "ok"
+    | .error e => pure (showErr e)
   | ["c20.corrp", p] => do
     let P ← parseMat? p
     pure ("ok " ++ showMat (corrOfPredictions P))
